@@ -2121,7 +2121,8 @@ pub proof fn lemma_sig_ns_normal(segs: Seq<Seq<char>>)
 
 // ---- unit theory.inverse6  <= (contracts):0 ----
 // ---- part 6 (C09): phase_a / phase_b applied to canon_spec of ARBITRARY handed-out parts ----
-// (generated from part 4 by replacing the two round-trip steps with their general versions; see tools note in DESIGN.md)
+// (derived from part 4 by replacing the two round-trip steps with their general versions; the raw splits are exposed as well,
+// for the injectivity theorem of C19)
 /// what build() guarantees of the parts whatever the builder was given: a name, the qualifier invariant, no empty value
 pub open spec fn gen_parts(p: PurlParts) -> bool {
     p.name@.len() > 0 && wf_seq(p.qualifiers.qualifiers@)
@@ -2154,6 +2155,7 @@ pub proof fn lemma_pb_version_gen(p: PurlParts)
     ensures
         rsplit_at(rest_of(p), '@').0 == r1_of(p),
         (match rsplit_at(rest_of(p), '@').1 { None => Some(Seq::<char>::empty()), Some(x) => dec(x) }) == Some(p.version@),
+        rsplit_at(rest_of(p), '@').1 == (if p.version@.len() > 0 { Some(enc(SetId::Path, p.version@)) } else { None::<Seq<char>> }),
 {
     lemma_lits();
     let ens = enc(SetId::Path, p.namespace@);
@@ -2191,6 +2193,8 @@ pub proof fn lemma_pb_ns_name_gen(p: PurlParts)
         let name_raw = if last_index_of(r1, '/') < 0 { r1 } else { r1.subrange(last_index_of(r1, '/') + 1, r1.len() as int) };
         (match ns_raw { None => Some(Seq::<char>::empty()), Some(x) => ns_fold(split_spec(trim_spec(x, '/'), '/')) }) == Some(sig_ns(p.namespace@))
         && dec(name_raw) == Some(p.name@)
+        && ns_raw == (if p.namespace@.len() > 0 { Some(enc(SetId::Path, p.namespace@)) } else { None::<Seq<char>> })
+        && name_raw == enc(SetId::Segment, p.name@)
     })
 {
     lemma_lits();
@@ -2228,6 +2232,7 @@ pub proof fn lemma_pa_subpath_gen(ty: Seq<char>, p: PurlParts)
     ensures
         rsplit_at(c_b(ty, p), '#').0 == c_l(ty, p),
         (match rsplit_at(c_b(ty, p), '#').1 { None => Some(Seq::<char>::empty()), Some(x) => sub_fold(split_spec(trim_spec(x, '/'), '/')) }) == Some(sig_sub(p.subpath@)),
+        rsplit_at(c_b(ty, p), '#').1 == (if p.subpath@.len() > 0 { Some(enc(SetId::Fragment, p.subpath@)) } else { None::<Seq<char>> }),
 {
     lemma_lits();
     let q = p.qualifiers.qualifiers@;
@@ -2323,6 +2328,45 @@ pub proof fn lemma_parse_canon_gen(ty: Seq<char>, p: PurlParts)
 {
     lemma_phase_a_canon_gen(ty, p);
     lemma_phase_b_canon_gen(p);
+}
+
+/// equal encodings come from equal texts (decoding inverts encoding)
+pub proof fn lemma_enc_injective(set: SetId, a: Seq<char>, b: Seq<char>)
+    requires enc(set, a) == enc(set, b)
+    ensures a == b
+{
+    axiom_dec_enc(set, a);
+    axiom_dec_enc(set, b);
+}
+
+/// C19 ("equal exactly when their canonical strings are equal", the hard direction): two handed-out values -- ANY namespace,
+/// version and subpath texts, a name, the qualifier invariant -- with the same canonical string have the same type text and
+/// the same field texts
+pub proof fn theorem_c19_injective(ty1: Seq<char>, p1: PurlParts, ty2: Seq<char>, p2: PurlParts)
+    requires valid_type(ty1), gen_parts(p1), valid_type(ty2), gen_parts(p2), canon_spec(ty1, p1) == canon_spec(ty2, p2)
+    ensures ty1 == ty2, p1.namespace@ == p2.namespace@, p1.name@ == p2.name@, p1.version@ == p2.version@, p1.subpath@ == p2.subpath@,
+        kvs(p1.qualifiers.qualifiers@) == kvs(p2.qualifiers.qualifiers@)
+{
+    // type, name, version, qualifier pairs: through the parser's phases (functions of the string)
+    lemma_parse_canon_gen(ty1, p1);
+    lemma_parse_canon_gen(ty2, p2);
+    assert(rest_of(p1) == rest_of(p2));
+    // subpath: the text after the last '#'
+    lemma_pa_scheme(ty1, p1);
+    lemma_pa_scheme(ty2, p2);
+    assert(c_b(ty1, p1) == c_b(ty2, p2));
+    lemma_pa_subpath_gen(ty1, p1);
+    lemma_pa_subpath_gen(ty2, p2);
+    if p1.subpath@.len() > 0 { lemma_enc_injective(SetId::Fragment, p1.subpath@, p2.subpath@); }
+    else { assert(p1.subpath@ =~= p2.subpath@); }
+    // namespace: the text before the last '/' of what precedes the version
+    lemma_pb_version_gen(p1);
+    lemma_pb_version_gen(p2);
+    assert(r1_of(p1) == r1_of(p2));
+    lemma_pb_ns_name_gen(p1);
+    lemma_pb_ns_name_gen(p2);
+    if p1.namespace@.len() > 0 { lemma_enc_injective(SetId::Path, p1.namespace@, p2.namespace@); }
+    else { assert(p1.namespace@ =~= p2.namespace@); }
 }
 
 // ---- unit theory.c03  <= (contracts):0 ----
